@@ -97,10 +97,11 @@ def exact_vertices(fam, a, b, c):
     X = np.linalg.solve(A[ok], d[idx[ok]][..., None])[..., 0]
     feas = np.all(X @ N.T <= d[None, :] + 1e-9 * max(a, b, c), axis=1)
     X = X[feas]
-    # merge coincident candidates
+    # merge candidates that coincide to rounding (the same vertex reached through different plane triples); candidates
+    # that are merely *close* (e.g. 2e-9 apart next to a domain edge) stay separate: they are what "well separated" is about
     out = []
     for x in X:
-        if not any(np.linalg.norm(x - y) < 1e-8 for y in out):
+        if not any(np.linalg.norm(x - y) < 1e-12 * max(a, b, c) for y in out):
             out.append(x)
     return np.array(out)
 
